@@ -145,6 +145,29 @@ func analyse(c *common, family string, hists []sim.History, traces [][]string, e
 	}
 }
 
+// analyseNoShrink is analyse for families whose histories are observations that cannot be re-executed.
+func analyseNoShrink(c *common, family string, hists []sim.History, traces [][]string, ex sim.Exec, rep *Report) {
+	b, err := sim.RunDriver(c.driver, family, traces)
+	if err != nil {
+		fmt.Fprintln(os.Stderr, "gkh:", err)
+		os.Exit(2)
+	}
+	rep.Summary = b.Summary
+	seen := map[string]int{}
+	for _, f := range b.Flags {
+		cl := f.Class()
+		seen[cl]++
+		if seen[cl] > 1 {
+			continue
+		}
+		rep.Findings = append(rep.Findings, Finding{Class: cl, Messages: []string{fmt.Sprintf("line %d: %s [%s]", f.Line, f.Msg, f.Trace)},
+			History: hists[f.Hist], Trace: traces[f.Hist]})
+	}
+	for i := range rep.Findings {
+		rep.Findings[i].Count = seen[rep.Findings[i].Class]
+	}
+}
+
 func distinctCount(hists []sim.History) int {
 	seen := map[string]bool{}
 	for _, h := range hists {
@@ -238,6 +261,8 @@ func main() {
 	switch os.Args[1] {
 	case "repo":
 		cmdRepo(os.Args[2:])
+	case "lin":
+		cmdLin(os.Args[2:])
 	case "sched":
 		cmdSched(os.Args[2:])
 	case "pool":
